@@ -463,9 +463,21 @@ let explain cs (i : int) (rp : rep) (b : bufop) : unit =
     if b.b_name = "RESTART" then begin
       let x = cur () in
       let a = min (min (ix cs (ni post.nd_raft.r_log.l_marker)) (inat x.o_applied)) y.a_commit in
-      must (L4Base (L3Crash (ii, nat y.a_commit, nat y.a_last, nat a)))
+      (* L3Crash i c m a keeps the first m entries; every m >= the length of the log is the plain
+         restart, and m must cover every acknowledgement the replica ever sent (also those for
+         entries that a later leader has overwritten since) *)
+      let m =
+        if y.a_last < List.length x.o_log then y.a_last
+        else List.fold_left (fun acc sm -> match sm with
+            | Ack (_, v, _, k) when inat v = i -> max acc (inat k) | _ -> acc) y.a_last (l2_msgs !s) in
+      must (L4Base (L3Crash (ii, nat y.a_commit, nat m, nat a)))
     end;
-    while inat (cur ()).o_applied < target_applied do must (L4Base (L3Apply ii)) done;
+    while inat (cur ()).o_applied < target_applied do
+      (* an apply event for an entry the replica has not committed is not something the
+         simulator's apply loop produces (it applies what an Update handed out) *)
+      if inat (cur ()).o_applied >= inat (cur ()).o_commit then raise (Unmodelled "apply-event-beyond-commit");
+      must (L4Base (L3Apply ii))
+    done;
     (* term *)
     let x = cur () in
     if y.a_term > inat x.o_term then begin
@@ -682,7 +694,10 @@ let run_case (cid : string) (hdr : string) (body : string) =
                       rp.initial <- true; rp.mapp <- List.length init; rp.acur <- 0
                     end
                   | "RESTART" ->
-                    rp.acur <- ni l.l_marker; rp.mapp <- ni l.l_marker
+                    (* the membership is reloaded from the snapshot; without a snapshot that covers
+                       the bootstrap entries the replica rebuilds it by applying them again, like a
+                       replica that joins *)
+                    rp.acur <- ni l.l_marker; rp.mapp <- ni l.l_marker; rp.initial <- false
                   | "RR" ->
                     let s = parse_snapshot f.(2) in
                     rp.acur <- max rp.acur (ni s.ss_index); rp.mapp <- max rp.mapp rp.acur
@@ -703,9 +718,10 @@ let run_case (cid : string) (hdr : string) (body : string) =
                            b_post = nd; b_mapp = rp.mapp } in
                  (match name with
                   | "U" -> flush i rp; explain_op i rp b
-                  | "SNAP" -> flush i rp; explain_op i rp b
                   | "RESTART" ->
-                    (* what happened after the last Update is lost in L1 and never happened in L2 *)
+                    (* what happened after the last Update is lost in L1 and never happened in L2; a
+                       snapshot taken since then is durable: the restarted replica starts at its index,
+                       which is a compaction step after the crash step *)
                     List.iter (fun (o : bufop) -> bump stat_expl ("lost:" ^ o.b_name) 1) rp.buf;
                     rp.buf <- []; explain_op i rp b
                   | _ -> rp.buf <- b :: rp.buf)
